@@ -1,0 +1,257 @@
+/*
+* Verification hooks (runtime monitoring); see EbVerifHooks.h.
+* Compiles to an empty unit unless SVT_AV1_VERIF is defined.
+*/
+#include "EbVerifHooks.h"
+
+#ifdef SVT_AV1_VERIF
+#include <stdio.h>
+#include <stdlib.h>
+#include <string.h>
+#include <pthread.h>
+#include <sched.h>
+#include <unistd.h>
+#include <fcntl.h>
+
+#if defined(__has_feature)
+#if __has_feature(thread_sanitizer)
+#define SVT_VERIF_TSAN 1
+#endif
+#endif
+#if defined(__SANITIZE_THREAD__)
+#define SVT_VERIF_TSAN 1
+#endif
+#ifdef SVT_VERIF_TSAN
+void __tsan_acquire(void *addr);
+void __tsan_release(void *addr);
+#endif
+
+/* ------------------------------------------------------------------ */
+/* configuration (parsed once)                                         */
+static pthread_once_t g_once = PTHREAD_ONCE_INIT;
+static uint64_t       g_sched_seed;
+static uint32_t       g_sched_permille;
+static uint32_t       g_sched_max_us;
+static int            g_trace_fd = -1;
+static int            g_no_hb;
+int                   svt_verif_trace_on = 0;
+
+static uint64_t g_thread_ordinal;
+static uint64_t g_sched_performed;
+static uint64_t g_trace_seq;
+static uint64_t g_trace_records;
+static uint64_t g_hb_count;
+
+static void verif_atexit(void) { svt_verif_trace_flush(); }
+
+static void verif_init(void) {
+    const char *s = getenv("SVT_VERIF_SCHED");
+    if (s) {
+        unsigned long long seed = 0;
+        unsigned           pm = 0, us = 0;
+        if (sscanf(s, "%llu:%u:%u", &seed, &pm, &us) >= 2) {
+            g_sched_seed     = seed * 0x9E3779B97F4A7C15ull + 0x1234567ull;
+            g_sched_permille = pm > 1000 ? 1000 : pm;
+            g_sched_max_us   = us;
+        }
+    }
+    g_no_hb = getenv("SVT_VERIF_NO_HB") != NULL;
+    s       = getenv("SVT_VERIF_TRACE");
+    if (s && *s) {
+        g_trace_fd = open(s, O_WRONLY | O_CREAT | O_APPEND, 0644);
+        if (g_trace_fd >= 0) {
+            __atomic_store_n(&svt_verif_trace_on, 1, __ATOMIC_SEQ_CST);
+            atexit(verif_atexit);
+        }
+    }
+}
+
+/* ------------------------------------------------------------------ */
+/* H1                                                                  */
+static __thread uint64_t t_rng;
+static __thread int      t_rng_ready;
+
+static uint64_t verif_rand(void) {
+    if (!t_rng_ready) {
+        uint64_t ord = __atomic_fetch_add(&g_thread_ordinal, 1, __ATOMIC_RELAXED);
+        t_rng        = g_sched_seed ^ ((ord + 1) * 0xD1B54A32D192ED03ull);
+        if (!t_rng)
+            t_rng = 88172645463325252ull;
+        t_rng_ready = 1;
+    }
+    t_rng ^= t_rng << 13;
+    t_rng ^= t_rng >> 7;
+    t_rng ^= t_rng << 17;
+    return t_rng;
+}
+
+void svt_verif_sched_point(int site) {
+    (void)site;
+    pthread_once(&g_once, verif_init);
+    if (!g_sched_permille)
+        return;
+    uint64_t r = verif_rand();
+    if ((r % 1000) >= g_sched_permille)
+        return;
+    __atomic_fetch_add(&g_sched_performed, 1, __ATOMIC_RELAXED);
+    r >>= 16;
+    if (!g_sched_max_us || (r & 1)) {
+        sched_yield();
+    } else {
+        usleep((useconds_t)((r >> 1) % (g_sched_max_us + 1)));
+    }
+}
+
+uint64_t svt_verif_sched_count(void) {
+    return __atomic_load_n(&g_sched_performed, __ATOMIC_RELAXED);
+}
+
+/* ------------------------------------------------------------------ */
+/* H2                                                                  */
+#define VERIF_REC_WORDS 7
+#define VERIF_BUF_RECS 4096
+
+typedef struct VerifBuf {
+    struct VerifBuf *next;
+    pthread_mutex_t  m;
+    uint64_t         tid;
+    uint32_t         n;
+    uint64_t         rec[VERIF_BUF_RECS * VERIF_REC_WORDS];
+} VerifBuf;
+
+static pthread_mutex_t    g_buf_list_m = PTHREAD_MUTEX_INITIALIZER;
+static pthread_mutex_t    g_file_m     = PTHREAD_MUTEX_INITIALIZER;
+static VerifBuf *         g_buf_list;
+static __thread VerifBuf *t_buf;
+static uint64_t           g_tid_next;
+
+static void verif_buf_write_locked(VerifBuf *b) {
+    if (!b->n || g_trace_fd < 0) {
+        b->n = 0;
+        return;
+    }
+    pthread_mutex_lock(&g_file_m);
+    const char *p    = (const char *)b->rec;
+    size_t      left = (size_t)b->n * VERIF_REC_WORDS * sizeof(uint64_t);
+    while (left) {
+        ssize_t w = write(g_trace_fd, p, left);
+        if (w <= 0)
+            break;
+        p += w;
+        left -= (size_t)w;
+    }
+    pthread_mutex_unlock(&g_file_m);
+    b->n = 0;
+}
+
+void svt_verif_trace(uint32_t kind, uint64_t a, uint64_t b, uint64_t c, uint64_t d) {
+    pthread_once(&g_once, verif_init);
+    if (!__atomic_load_n(&svt_verif_trace_on, __ATOMIC_RELAXED))
+        return;
+    VerifBuf *vb = t_buf;
+    if (!vb) {
+        vb = (VerifBuf *)calloc(1, sizeof(*vb));
+        if (!vb)
+            return;
+        pthread_mutex_init(&vb->m, NULL);
+        vb->tid = __atomic_add_fetch(&g_tid_next, 1, __ATOMIC_RELAXED);
+        pthread_mutex_lock(&g_buf_list_m);
+        vb->next   = g_buf_list;
+        g_buf_list = vb;
+        pthread_mutex_unlock(&g_buf_list_m);
+        t_buf = vb;
+    }
+    pthread_mutex_lock(&vb->m);
+    uint64_t *r = vb->rec + (size_t)vb->n * VERIF_REC_WORDS;
+    /* seq is taken here, i.e. inside whatever critical section the caller is in */
+    r[0] = __atomic_add_fetch(&g_trace_seq, 1, __ATOMIC_SEQ_CST);
+    r[1] = vb->tid;
+    r[2] = kind;
+    r[3] = a;
+    r[4] = b;
+    r[5] = c;
+    r[6] = d;
+    vb->n++;
+    __atomic_fetch_add(&g_trace_records, 1, __ATOMIC_RELAXED);
+    if (vb->n == VERIF_BUF_RECS)
+        verif_buf_write_locked(vb);
+    pthread_mutex_unlock(&vb->m);
+}
+
+void svt_verif_trace_flush(void) {
+    pthread_mutex_lock(&g_buf_list_m);
+    for (VerifBuf *b = g_buf_list; b; b = b->next) {
+        pthread_mutex_lock(&b->m);
+        verif_buf_write_locked(b);
+        pthread_mutex_unlock(&b->m);
+    }
+    pthread_mutex_unlock(&g_buf_list_m);
+}
+
+uint64_t svt_verif_trace_count(void) { return __atomic_load_n(&g_trace_records, __ATOMIC_RELAXED); }
+
+/* ------------------------------------------------------------------ */
+/* H8                                                                  */
+#define VERIF_RES_TYPES 6
+static int64_t g_res_live[VERIF_RES_TYPES];
+static int64_t g_res_bytes;
+
+void svt_verif_res_add(const void *p, int type, size_t count) {
+    if (!p || type < 0 || type >= VERIF_RES_TYPES)
+        return;
+    __atomic_fetch_add(&g_res_live[type], 1, __ATOMIC_RELAXED);
+    if (type <= 2)
+        __atomic_fetch_add(&g_res_bytes, (int64_t)count, __ATOMIC_RELAXED);
+}
+
+void svt_verif_res_remove(const void *p, int type) {
+    if (!p || type < 0 || type >= VERIF_RES_TYPES)
+        return;
+    /* EB_FREE is used for calloc'ed memory too: fold the three memory kinds */
+    __atomic_fetch_sub(&g_res_live[type], 1, __ATOMIC_RELAXED);
+}
+
+int64_t svt_verif_live_entries(int type) {
+    if (type < 0 || type >= VERIF_RES_TYPES)
+        return 0;
+    if (type <= 2) /* memory kinds are interchangeable at free time: report their sum on 0 */
+        return type == 0 ? __atomic_load_n(&g_res_live[0], __ATOMIC_RELAXED) +
+                __atomic_load_n(&g_res_live[1], __ATOMIC_RELAXED) +
+                __atomic_load_n(&g_res_live[2], __ATOMIC_RELAXED)
+                         : 0;
+    return __atomic_load_n(&g_res_live[type], __ATOMIC_RELAXED);
+}
+
+int64_t svt_verif_live_bytes(void) { return __atomic_load_n(&g_res_bytes, __ATOMIC_RELAXED); }
+
+/* ------------------------------------------------------------------ */
+/* H6                                                                  */
+void svt_verif_hb_release(const volatile void *addr) {
+    pthread_once(&g_once, verif_init);
+    __atomic_fetch_add(&g_hb_count, 1, __ATOMIC_RELAXED);
+#ifdef SVT_VERIF_TSAN
+    if (!g_no_hb)
+        __tsan_release((void *)addr);
+#else
+    (void)addr;
+#endif
+    if (g_sched_permille)
+        svt_verif_sched_point(SVT_VERIF_SITE_HB);
+}
+
+void svt_verif_hb_acquire(const volatile void *addr) {
+    pthread_once(&g_once, verif_init);
+#ifdef SVT_VERIF_TSAN
+    if (!g_no_hb)
+        __tsan_acquire((void *)addr);
+#else
+    (void)addr;
+#endif
+}
+
+uint64_t svt_verif_hb_count(void) { return __atomic_load_n(&g_hb_count, __ATOMIC_RELAXED); }
+
+#else
+/* ISO C forbids an empty translation unit */
+typedef int svt_verif_hooks_unused_t;
+#endif /* SVT_AV1_VERIF */
